@@ -7,7 +7,7 @@ import PyrollModel.PassGeom
           build (`Gen/C08Geom.lean`), over an UNINTERPRETED shapely signature, and its interpretation into ANY model
           `Sig α G` of that signature (scalars `α`, geometries `G`).  "Same shape as the profile-from-groove
           constructor" is an equality of terms and therefore holds under every interpretation of the library.
-  Part 2  one concrete interpretation: vertex lists.  `translate` / `rotate` vertex-wise (PassGeom's arithmetic =
+  Part 2  one concrete interpretation: vertex lists.  `translate` / `rotate` / `scale` vertex-wise (PassGeom's arithmetic =
           shapely's), `Polygon(...)` closes the ring, `clip_by_rect` = successive half-plane clips that walk along the
           ring, keep the inside vertices and insert the interpolated border crossings (Sutherland–Hodgman; exact when
           the clipped region is connected, e.g. for a z-monotone contour and its half-turn image), `segmentize` = identity
@@ -39,6 +39,7 @@ inductive GT where
   | src (s : Src)
   | translate (g : GT) (xoff yoff : Expr)          -- shapely.affinity.translate(g, xoff, yoff)
   | rotate (g : GT) (deg : Expr)                   -- shapely.affinity.rotate(g, angle, origin=(0, 0))
+  | scale (g : GT) (xfact yfact : Expr)            -- shapely.affinity.scale(g, xfact, yfact, origin=(0, 0)): a reflection for -1
   | reverse (g : GT)                               -- LineString(g.coords[::-1])
   | concat (a b : GT)                              -- np.concatenate([a.coords, b.coords]) / the lines of a MultiLineString
   | polygon (g : GT)                               -- Polygon(<coordinates of g>)
@@ -91,6 +92,7 @@ structure Sig (α G : Type) where
   src : Src → G
   translate : G → α → α → G
   rotate : G → α → G
+  scale : G → α → α → G
   reverse : G → G
   concat : G → G → G
   polygon : G → G
@@ -117,6 +119,7 @@ def GT.eval (S : Sig α G) (ρ : String → α) : GT → G
   | .src s => S.src s
   | .translate g dx dy => S.translate (g.eval S ρ) (dx.eval ρ) (dy.eval ρ)
   | .rotate g a => S.rotate (g.eval S ρ) (a.eval ρ)
+  | .scale g fx fy => S.scale (g.eval S ρ) (fx.eval ρ) (fy.eval ρ)
   | .reverse g => S.reverse (g.eval S ρ)
   | .concat a b => S.concat (a.eval S ρ) (b.eval S ρ)
   | .polygon g => S.polygon (g.eval S ρ)
@@ -153,6 +156,7 @@ def GT.mapSrc (f : Src → Src) : GT → GT
   | .src s => .src (f s)
   | .translate g dx dy => .translate (g.mapSrc f) dx dy
   | .rotate g a => .rotate (g.mapSrc f) a
+  | .scale g fx fy => .scale (g.mapSrc f) fx fy
   | .reverse g => .reverse (g.mapSrc f)
   | .concat a b => .concat (a.mapSrc f) (b.mapSrc f)
   | .polygon g => .polygon (g.mapSrc f)
@@ -270,6 +274,7 @@ def VL (contour : Src → List (Pt α)) (valid : List (Pt α) → Bool) : Sig α
   src := contour
   translate := fun g dx dy => g.map fun p => ⟨p.x + dx, p.y + dy⟩
   rotate := fun g a => g.map (rotPt a)
+  scale := fun g fx fy => g.map fun p => ⟨p.x * fx, p.y * fy⟩
   reverse := List.reverse
   concat := fun a b => a ++ b
   polygon := closeRing
@@ -281,6 +286,17 @@ def VL (contour : Src → List (Pt α)) (valid : List (Pt α) → Bool) : Sig α
 
 /-- half turn about the origin -/
 def ht (p : Pt α) : Pt α := ⟨-p.x, -p.y⟩
+
+/-- mirror image at the pass line `y = 0` (`scale(g, yfact=-1, origin=(0, 0))` on one vertex) -/
+def flipY (p : Pt α) : Pt α := ⟨p.x, -p.y⟩
+
+/-- mirror image at the centre line `x = 0` of the groove (`scale(g, xfact=-1, origin=(0, 0))` on one vertex) -/
+def flipX (p : Pt α) : Pt α := ⟨-p.x, p.y⟩
+
+/-- a roll contour placed BELOW the pass line as the mirror image of the upper one, in the coordinate order of a closed
+    ring (`scale(upper, yfact=-1)` followed by `coords[::-1]`): NOT what a two-roll pass is made of - both rolls are the
+    same roll, the lower one is the upper one turned by 180 degrees (`List.map ht`) -/
+def mirrorRev (u : List (Pt α)) : List (Pt α) := (u.map flipY).reverse
 
 /-- the polygon formed by an upper chain and its half-turn image, clipped to `|x| ≤ w/2`
     (this is what the two-roll constructions evaluate to, see `PyrollProps/C08.lean`) -/
